@@ -87,6 +87,8 @@ def render_sub(sub, ind='  '):
             elif how == 'uq':
                 uses[mod.lower()] = [mod, None]
                 calls.append(f'call {proc}(x)')
+            elif how == 'modimp':   # through a module-level import of the enclosing module (local name or the name itself)
+                calls.append(f'call {local or proc}(x)')
             else:   # same, free, ext
                 calls.append(f'call {proc}(x)')
         elif op == 'tcall':
@@ -119,11 +121,15 @@ def render_sub(sub, ind='  '):
 
 
 def render_mod(mod):
-    """(mod "Name" (muse ("m" "v")...) (gvars "v"...) (types (ty "T" ("b" "impl")...)...) (ifaces (iface "I" "p"...)...) (procs sub...))"""
+    """(mod "Name" (muse ("m" "v")...) [(mprocs ("m" "proc" "local")...)] (gvars "v"...) (types (ty "T" ("b" "impl")...)...) (ifaces (iface "I" "p"...)...) (procs sub...))"""
     name = mod[1]
     out = [f'module {name}']
     for u in field(mod, 'muse', [None])[1:]:
         out.append(f'  use {u[0]}, only: {u[1]}')
+    for u in field(mod, 'mprocs', [None])[1:]:
+        # module-level import of a procedure, optionally renamed: visible in every module procedure unless the procedure
+        # imports the same local name itself (the innermost import wins)
+        out.append(f'  use {u[0]}, only: ' + (f'{u[2]} => {u[1]}' if u[2] else u[1]))
     out.append('  implicit none')
     for v in field(mod, 'gvars', [None])[1:]:
         out.append(f'  real :: {v}')
@@ -175,7 +181,8 @@ def truth(proj):
             op = head(st)
             if op == 'call':
                 how, mod, proc = str(st[1]), st[2].lower(), st[3].lower()
-                if how in ('only', 'ren'):
+                if how in ('only', 'ren', 'modimp'):
+                    # Fortran's rule: the routine's own import of a local name hides the enclosing module's import of it
                     deps.append((f'{mod}#{proc}', None))
                 elif how == 'uq':
                     deps.append((mod, None))
@@ -508,8 +515,9 @@ def export_abs(dirpath):
                 continue
             try:
                 r0 = [x for x in as_tuple(fac.create_from_ir(node, scope_ir, cfg)) if x is not None]
-            except UnboundLocalError:
-                # several candidates through unqualified imports: list them (the real code fails to build its message)
+            except (UnboundLocalError, RuntimeError):
+                # several distinct candidates through unqualified imports (RuntimeError; before the fix: commit for
+                # uq-interface-member also a doubly listed one, UnboundLocalError): list them
                 pname = str(getattr(node, 'name', node)).lower()
                 mods = [imprt.module for imprt in scope_ir.all_imports if not imprt.symbols]
                 cands = fac.get_or_create_module_definitions_from_candidates(pname, cfg, module_names=mods, only=ProcedureItem)
@@ -623,7 +631,7 @@ def gen_project(rng, size, collide=False):
     place = {}        # routine -> module name or ''
     for i, r in enumerate(names):
         place[r] = '' if (i == 0 and rng.random() < 0.5) or rng.random() < 0.35 else rng.choice(modnames)
-    mods = {m: dict(gvars=[], types=[], ifaces=[], muse=[], procs=[]) for m in modnames}
+    mods = {m: dict(gvars=[], types=[], ifaces=[], muse=[], mprocs=[], procs=[]) for m in modnames}
     # module extras
     for m in modnames:
         if rng.random() < 0.6:
@@ -688,6 +696,44 @@ def gen_project(rng, size, collide=False):
             body[r].append(('call', 'same' if place[r] else 'free', place[r], r, ''))   # direct recursion
         if r in impls:
             body[r].append(('self', impls[r]))
+    # shadowed imports: the enclosing module imports, under the local name a module procedure imports itself from module
+    # Y, a procedure of a different module X (with and without renaming on either side); the call must go to Y
+    for i, r in enumerate(names):
+        m = place[r]
+        if not m:
+            continue
+        for k, st in enumerate(body[r]):
+            if st[0] != 'call' or st[1] not in ('only', 'ren') or rng.random() > 0.6:
+                continue
+            y = st[2]
+            others = [p for p in names if place[p] not in ('', m) and p != st[3] and p not in impls]
+            taken = {(e[2] or e[1]).lower() for e in mods[m]['mprocs']}
+            # names a routine of this module reaches through an unqualified USE must not be shadowed at module level:
+            # Loki resolves qualified imports of any enclosing scope before unqualified ones of the routine itself
+            taken |= {s_[3].lower() for r2 in names if place[r2] == m for s_ in body[r2] if s_[0] == 'call' and s_[1] == 'uq'}
+            if not others:
+                continue
+            px = rng.choice(others)
+            called = {s_[3] for s_ in body[r] if s_[0] == 'call'} | {s_[4] for s_ in body[r] if s_[0] == 'call'}
+            if st[1] == 'only' and rng.random() < 0.4 and px not in called and px.lower() not in taken:
+                # module level: plain `use X, only: px`; routine level: `use Y, only: px => py`
+                body[r][k] = ('call', 'ren', y, st[3], px)
+                mods[m]['mprocs'].append((place[px], px, ''))
+            else:
+                local = st[4] if st[1] == 'ren' else st[3]
+                if local.lower() in taken:
+                    continue
+                mods[m]['mprocs'].append((place[px], px, local))
+    # calls through a module-level import (no import in the routine itself)
+    for i, r in enumerate(names):
+        m = place[r]
+        if not m:
+            continue
+        for (x, px, local) in mods[m]['mprocs']:
+            own = {(s_[4] or s_[3]).lower() for s_ in body[r] if s_[0] == 'call' and s_[1] in ('only', 'ren', 'uq')}
+            if names.index(px) > i and (local or px).lower() not in own and not any(s_[0] == 'call' and s_[3] == px for s_ in body[r]) \
+                    and not any(s_[0] == 'call' and s_[1] == 'uq' for s_ in body[r]) and rng.random() < 0.3:
+                body[r].append(('call', 'modimp', x, px, local))
     # spec
     def sub_spec(r):
         # a self-calling routine carries RECURSIVE only half of the time (F2018: procedures are recursive by default)
@@ -706,6 +752,7 @@ def gen_project(rng, size, collide=False):
         d = mods[m]
         mod = [A('mod'), spell(rng, m),
                [A('muse')] + [[o, v] for o, v in d['muse']],
+               [A('mprocs')] + [[spell(rng, x), spell(rng, p_), l_] for x, p_, l_ in d['mprocs']],
                [A('gvars')] + d['gvars'],
                [A('types')] + [[A('ty'), t] + [[b, p] for b, p in bs] for t, bs in d['types']],
                [A('ifaces')] + [[A('iface'), g] + ps for g, ps in d['ifaces']],
@@ -853,7 +900,7 @@ class C21(Prop):
     props_module = 'LokiModel.Props.C21'
     driver = 'Drivers/C21.lean'
     theorems = ['C21_populate_nodes', 'C21_populate_edges', 'C21_populate_terminates', 'C21_populate_error',
-                'C21_children_spec', 'C21_node_one', 'C21_node_uq_single', 'C21_node_imp',
+                'C21_children_spec', 'C21_node_one', 'C21_node_uq_single', 'C21_node_uq_duplicate', 'C21_node_imp',
                 'C21_match_case_insensitive', 'C21_match_plain_spec', 'C21_match_pattern_spec', 'C21_candidates_scoped',
                 'C21_tables', 'C21_glob_spec', 'C21_full_false', 'C21_partial', 'C21_no_full_parse',
                 'C21_discover_full_false', 'C21_discover_partial']
@@ -875,7 +922,7 @@ class C21(Prop):
                   'to case. The model is tied to loki/batch by exporting the abstraction of generated multi-file Fortran projects '
                   'from the real ItemFactory and comparing the real Scheduler items/edges IN GRAPH ORDER with the Lean driver '
                   '(full_parse on and off), and match_item_keys on generated names/keys; the direct oracle compares the real '
-                  'graph with a reference closure computed from the generator\'s ground truth. Three further defect classes '
+                  'graph with a reference closure computed from the generator\'s ground truth. Two further open defect classes '
                   '(calls resolved through unqualified USE) are characterised in the model (C21_node_uq_single) and on the input; '
                   'they are oracle-level known findings.')
     level_note = ('Hand-written model. The abstraction function (harness export_abs: item -> dependency nodes under a neutral '
@@ -1032,8 +1079,6 @@ class C21(Prop):
             if ref[0] != 'ok':
                 return sites
             return [(a, c) for a, c in sites if a.lower() in ref[1] and conf_of(cfg, a).get('expand', False)]
-        if res[0] == 'error' and res[1] == 'unboundlocalerror' and uq_interface_member_sites(proj):
-            return 'uq-interface-member'
         if res[0] == 'error' and res[1] == 'networkxunfeasible' and fullparse and ref[0] == 'ok' \
                 and file_graph_cyclic(proj, cfg, ref[2]):
             return 'file-graph-cycle'
@@ -1046,7 +1091,7 @@ class C21(Prop):
         return None
 
     def classes(self):
-        return ['file-case-collision', 'uq-interface-member', 'file-graph-cycle', 'uq-call-unfiltered', 'uq-disabled-falls-through']
+        return ['file-case-collision', 'file-graph-cycle', 'uq-call-unfiltered', 'uq-disabled-falls-through']
 
 
 PROP = C21()
